@@ -3,7 +3,7 @@ NEXT Next
 CONSTRAINT Emit
 CONSTANTS
   Mode = "linear"
-  Stages = {"Inc", "Dbl", "Even", "Err3", "Dup", "Rep", "Split", "Sum", "Dedup", "BSum2", "BSum3", "BFlat2", "Buf1", "Buf2", "OPar2", "Par2"}
+  Stages = {"Inc", "Even", "Err3", "Dup", "Rep", "Split", "Sum", "Dedup", "BSum2", "BFlat2", "Buf1", "OPar2", "Par2"}
   InputsKind = "q"
   MaxDepth = 3
   SubStages = {}
